@@ -26,7 +26,7 @@ def mkwork(prefix="sysloss-verif-"):
 
 
 def _java(args, env=None, cwd=SPEC_DIR, timeout=None, gc="-XX:+UseParallelGC", heap=None):
-    cmd = ["java", gc]
+    cmd = ["java", gc, "-Xss64m"]
     if heap:
         cmd.append("-Xmx" + heap)
     cmd += ["-cp", JAR_CP, "tlc2.TLC"] + args
